@@ -14,7 +14,9 @@ META = dict(
                 'on numpy object arrays of z3 reals; every obligation is a z3 query over all positive powers and all valid '
                 'signal/ASE/NLI splits; solver models of every path are replayed on the float implementation',
     bounds=['channels k<=3 (quick) / 4 (thorough)', 'one element step from an arbitrary state satisfying I',
-            'floats modelled as reals', 'NLI added <= channel power (the property\'s own caveat)'],
+            'floats modelled as reals', 'NLI added <= channel power (the property\'s own caveat)',
+            'reported-ratio identity also with the ASE share or the NLI share exactly zero on every channel',
+            'input spectrum object re-inspected after an amplifier call (aliasing of share arrays)'],
     assumptions=['Python floats are modelled as mathematical reals; IEEE rounding is outside the claim',
                  'pre-state satisfies I: p>0, s>0, a,n>=0, s+a+n=1 (n defined as 1-s-a)',
                  'added NLI power 0<=nli<=p per channel; added ASE >= 0; gains/attenuations > 0',
